@@ -61,14 +61,14 @@ def worker(sh):
             eq = [(i, v + R if v + R < (1 << 256) else v) for i, v in ext]
             verify(sid, eq, msg, 1, 'positive/list-equal-mod-r')
             # negatives
-            m2 = (msg + rng.choice(NZ)) % (1 << 256)
+            m2 = wkd.nudge(msg, rng, NZ)
             if (m2 - msg) % R and sigsup:
                 verify(sid, ext, m2, 0, 'other-message')
             d = dict(ext)
             if d:
                 i = rng.choice(list(d))
                 d2 = dict(d)
-                d2[i] = (d2[i] + rng.choice(NZ)) % (1 << 256)
+                d2[i] = wkd.nudge(d2[i], rng, NZ)
                 if differ(l, sorted(d.items()), sorted(d2.items())):
                     verify(sid, sorted(d2.items()), msg, 0, 'list:value-changed')
                 d3 = dict(d)
@@ -97,7 +97,7 @@ def worker(sh):
         if fl:
             d = dict(fl)
             i = rng.choice(list(d))
-            d[i] = (d[i] + rng.choice(NZ)) % (1 << 256)
+            d[i] = wkd.nudge(d[i], rng, NZ)
             bad = sorted(d.items())
             if differ(l, sorted(dict(fl).items()), bad):
                 msg = rng.getrandbits(256)
@@ -105,6 +105,7 @@ def worker(sh):
                 sc.add('sign %d %d 0 %s %s %d %d %s' % (sid, kid, alist(bad), idhex(msg), sc.seed(), rng.randrange(2), alist(bad)), 'sign', mode=0)
                 verify(sid, bad, msg, 0, 'incompatible:fixed-slot-other-value')
     outs = session.run_all(sh, sh.payload['cfgs'], sc.lines)
+    sh.count('scheme_ops_with_crafted_random_streams', getattr(sc, 'nstream', 0))
     for line, (kind, kw), out in zip(sc.lines, sc.exp, outs):
         if out is None:
             continue
